@@ -20,7 +20,7 @@ CS = 'yui_matrix::sparse::schur::Schur::<R>::compute_schur'
 
 
 def sk(t):
-    return re.sub(r'#\d+\.\d+', '', show(t))
+    return re.sub(r'#(?:i\d+:)?\d+\.\d+', '', show(t))
 
 
 # ---- non-commutative polynomials: dict word -> coef, with a*ai = ai*a = 1
